@@ -35,15 +35,24 @@
   The endianness is read off the signature, so "both byte orders" is inside "all byte strings";
   the per-reader lemmas (`MdProofs.Lemmas.BytesStreams`) hold for either `Endian` explicitly.
 
-  PARTIAL: the TEXT the printers emit (the model covers their indexing / offset arithmetic only),
-  `MinidumpMiscInfo`, `MinidumpLinuxMaps` (C02's round), `UnifiedMemoryInfoList`, `os_parts`,
-  `valid_registers` (C18's model), the `Module` identifier accessors (C02's model) and the
-  third-party decoders (`encoding_rs`, `procfs-core`, `time`, `uuid`, `range-map`) are not part of
-  these theorems; for them the `read` engine's oracle (catch_unwind + counting allocator + time
-  budget) is a sampled check.
+  Sections 12-17 (round 4) are about `MdModel.Dump.readWhole` = `readFull` followed by `readMore`
+  (MdModel.DumpFull): `MinidumpMiscInfo` with its accessors and printer (the fixed UTF-16 arrays, the
+  XSTATE feature loop), `MinidumpLinuxMaps` = procfs-core 0.17's maps parser on ARBITRARY text, its
+  three panic sites included as panic outcomes (`maps_panics_iff`: the exact frontier of the known
+  finding C01-procfs-mmappath; `maps_guard_correct`: the proposed repair), `UnifiedMemoryInfoList`,
+  `os_parts`, the `Module` identifier accessors / `print` on arbitrary CodeView records, the
+  soft-errors stream, and the register accessors of every context read from bytes through C18's
+  generated tables (`context_registers_spec`). `readWhole` is what the driver runs now.
+
+  PARTIAL: the TEXT the printers emit (the model covers their indexing / offset arithmetic and the
+  strings they decode), the third-party decoders (`encoding_rs`, `time`, `uuid`, `range-map`; the
+  part of `procfs-core` the maps reader uses is modelled and tied) are not part of these theorems;
+  for them the `read` engine's oracle (catch_unwind + counting allocator + time budget) is a sampled
+  check.
 -/
 import MdProofs.Lemmas.BytesTotal
 import MdProofs.Lemmas.BytesFull
+import MdProofs.Lemmas.BytesMore
 namespace MdModel.Dump
 open MdModel MdModel.Gen.Layouts MdModel.Gen.LayoutsX
 
@@ -567,5 +576,317 @@ theorem crash_reason_reads_in_bounds {b all : Bytes} {e : Endian} {x : Exception
 /-- a version-5 record whose string table ends early (4 of 5 terminators): an error value, no panic -/
 example : resError (readCStrings ("a\x00b\x00c\x00d\x00e".toUTF8.data : Bytes) 5 0).res = some .StreamReadFailure := by decide +kernel
 
+
+/-! ## 12. `MinidumpMiscInfo` on any bytes: the reader, the accessors, the printer -/
+
+/-- **C01.12a** For every stream and byte order: `MinidumpMiscInfo::read` followed by `print` (and
+    `process_create_time`) reaches no panic outcome — `&data[..len]` of the three kinds of fixed UTF-16
+    arrays (`standard_name` / `daylight_name` : 32 units, `build_string` : 260, `dbg_bld_str` : 40),
+    `1 << cur_idx` and `features[cur_idx]` of the XSTATE loop —, makes at most 4 allocations (the
+    decoded strings), each at most 7 x the stream; a stream that reads is one of the five revisions
+    with exactly that struct's scalars, and the struct fits the stream. -/
+theorem misc_info_total (b : Bytes) (e : Endian) :
+    (∀ site, (readMiscInfoX b e).res ≠ .panic site) ∧
+    (∀ a ∈ (readMiscInfoX b e).allocs, a.n * a.sz ≤ 7 * b.size) ∧ (readMiscInfoX b e).allocs.length ≤ 4 ∧
+    (∀ mi, (readMiscInfo b e).res = .ok mi →
+      1 ≤ mi.ver ∧ mi.ver ≤ 5 ∧ mi.vals.length = (miscLayout mi.ver).length ∧ Layout.size (miscLayout mi.ver) ≤ b.size) ∧
+    (∀ data : List Nat, ∀ site, (utf16ToString data).res ≠ .panic site) :=
+  ⟨(readMiscInfoX_safe b e (Nat.le_refl _)).1, (readMiscInfoX_safe b e (Nat.le_refl _)).2, cnt_readMiscInfoX b e,
+   fun mi h => ⟨(readMiscInfo_ok h).ver.1, (readMiscInfo_ok h).ver.2, (readMiscInfo_ok h).len, (readMiscInfo_ok h).fits⟩,
+   fun data => (utf16ToString_safe data (Nat.le_refl _)).1⟩
+
+/-- **C01.12b** `XstateFeatureIter` (the loop `print` drives over `xstate_data`) is total and exact: on
+    the 131 scalars of the field it ends without panic — no shift by 64, no index past the 64
+    entries — and yields exactly the set bits of `enabled_features` in ascending order, bit 63
+    included, each with its `features[i]` (offset, size). -/
+theorem xstate_iter_exact (vals : List Nat) (h : 131 ≤ vals.length) :
+    (xstateIter vals).res = .ok ((List.range 64).filterMap fun i =>
+      if (fld vals 2).testBit i then some (i, fld vals (3 + 2 * i), fld vals (4 + 2 * i)) else none) :=
+  xstateIter_spec vals h
+
+/-- all 64 features enabled: 64 entries, the last one is feature 63 -/
+example : (resValue (xstateIter ([0, 0, 2 ^ 64 - 1] ++ (List.range 128))).res).map (fun l => (l.length, l.getLast?)) =
+    some (64, some (63, 126, 127)) := by decide +kernel
+
+/-! ## 13. `MinidumpLinuxMaps`: the exact frontier of finding C01-procfs-mmappath -/
+
+/-- **C01.13a `maps_panics_iff`** For every stream: `MinidumpLinuxMaps::read` (procfs-core 0.17's
+    `MemoryMaps::from_read`, then `from_regions`) reaches a panic outcome **iff** the text is
+    `MapsHostile` — a decidable property of the text: the first line the parser does not accept is
+    (1) a map-entry line whose path column starts with `[stack:` and ends in a non-ASCII byte,
+    (2) one whose path column starts with `/SYSV` and has no bytes 5..13 (shorter than 13 bytes, or a
+    character straddles index 13), or (3) behind a map entry, an attribute line `Key: <v> <suffix>`
+    with `v * 1024 > u64::MAX`. `guarded = true` (the proposed repair in place): never. -/
+theorem maps_panics_iff (guarded : Bool) (b : Bytes) :
+    (∃ site, (readLinuxMapsG guarded b).res = .panic site) ↔ guarded = false ∧ MapsHostile b.toList :=
+  readLinuxMapsG_panic_iff guarded b
+
+/-- **C01.13b `maps_total_of_not_hostile`** On every other text the reader yields a value or an error
+    value. -/
+theorem maps_total_of_not_hostile (guarded : Bool) (b : Bytes) (h : ¬ MapsHostile b.toList) :
+    (∃ m, (readLinuxMapsG guarded b).res = .ok m) ∨ (∃ er, (readLinuxMapsG guarded b).res = .err er) := by
+  cases hr : (readLinuxMapsG guarded b).res with
+  | ok m => exact .inl ⟨m, rfl⟩
+  | err er => exact .inr ⟨er, rfl⟩
+  | panic s => exact absurd ((maps_panics_iff guarded b).mp ⟨s, hr⟩).2 h
+
+/-- **C01.13c** what `MapsHostile` says, spelled out: the lines split into a run of ACCEPTED lines,
+    then one line of one of the three shapes (in the parser state the run leaves), then anything. A
+    hostile-looking line behind a line the parser rejects is never reached. -/
+theorem maps_hostile_iff_exists (text : List UInt8) :
+    MapsHostile text ↔
+      ∃ pre l post cur, textLines text = pre ++ l :: post ∧ acceptedRun pre false = some cur ∧ HostileLine cur l = true :=
+  hostileFrom_iff_exists (textLines text) false
+
+/-- **C01.13d** the reader modelled here IS C02's (`MdModel.Dump2.readLinuxMaps`, for which C02 proves
+    the round trip): same entries, same error, same panic site — this file adds the allocation log,
+    the lookup table and the frontier. -/
+theorem maps_reader_is_c02s (b : Bytes) :
+    (match (readLinuxMapsX b).res with
+     | .ok m => Res.ok m.entries
+     | .err e => .err e
+     | .panic s => .panic s) = (match (readLinuxMaps b).res with
+     | .ok es => Res.ok es
+     | .err e => .err e
+     | .panic s => .panic s) :=
+  readLinuxMapsX_entries b
+
+/-- **C01.13e** allocations of the maps reader on EVERY path, the panicking one included: each is
+    backed by the stream (`<= 32 x len`: a line's `String`, the entry vector — an entry needs five
+    blanks and a line terminator —, the lookup table), and there are at most `4 x len + 6`; the
+    lookups `memory_info_at_address` stay inside the entry vector. -/
+theorem maps_alloc_backed (guarded : Bool) (b : Bytes) :
+    (∀ a ∈ (readMapsOutG guarded b).allocs, a.n * a.sz ≤ 32 * b.size) ∧
+    (readMapsOutG guarded b).allocs.length ≤ 4 * b.size + 6 ∧
+    (∀ m, (readLinuxMapsG guarded b).res = .ok m → m.entries.length * 6 ≤ b.size + 1 ∧
+      ∀ a site, (mapsInfoAt m a).res ≠ .panic site) :=
+  ⟨readMapsOutG_allocsLe guarded b, cnt_readMapsOutG guarded b, fun m hm =>
+    ⟨(readLinuxMapsX_ok (readLinuxMapsG_ok hm)).2.1,
+     fun a => (mapsInfoAt_safe (B := 0) m (readLinuxMapsX_ok (readLinuxMapsG_ok hm)).1 a).1⟩⟩
+
+/-- **C01.13f `maps_guard_correct`** the proposed repair (`maps_text_is_safe`, modelled as
+    `mapsGuardOk`; notes/pending-fix-procfs-mmappath.diff) is SOUND — every text on which the
+    unguarded reader panics is refused, so the guarded reader never panics — and TIGHT — a stream
+    reads with the guard exactly when it read without it, with the same result. -/
+theorem maps_guard_correct (b : Bytes) :
+    (MapsHostile b.toList → mapsGuardOk (textLines b.toList) = false) ∧
+    (∀ site, (readLinuxMapsG true b).res ≠ .panic site) ∧
+    (∀ m, (readLinuxMapsG true b).res = .ok m ↔ (readLinuxMapsG false b).res = .ok m) :=
+  ⟨fun h => guard_sound _ _ h,
+   fun site hs => Bool.noConfusion ((maps_panics_iff true b).mp ⟨site, hs⟩).1,
+   fun m => readLinuxMapsG_true_ok_iff b m⟩
+
+/-- the three witnesses of the finding are hostile; a well-formed text is not; a hostile-looking line
+    BEHIND a malformed line is not (the parser has stopped with an error before it gets there) -/
+example :
+    MapsHostile "00400000-0040b000 r-xp 00000000 08:01 1 /SYSV12\n".toUTF8.data.toList ∧
+    MapsHostile "00400000-0040b000 r-xp 00000000 08:01 1 [stack:7é\n".toUTF8.data.toList ∧
+    MapsHostile "00400000-0040b000 rw-p 00000000 00:00 0 [heap]\nRss: 18014398509481984 kB\n".toUTF8.data.toList ∧
+    ¬ MapsHostile "00400000-0040b000 rw-p 00000000 00:00 0 [heap]\nRss: 18014398509481983 kB\nVmFlags: rd wr\n".toUTF8.data.toList ∧
+    ¬ MapsHostile "bad line\n00400000-0040b000 r-xp 00000000 08:01 1 /SYSV12\n".toUTF8.data.toList ∧
+    ¬ MapsHostile "Rss: 18014398509481984 kB\n".toUTF8.data.toList := by decide +kernel
+
+/-! ## 14. `UnifiedMemoryInfoList`, the `Module` identifier accessors and `print`, soft errors -/
+
+/-- **C01.14a** For every memory-info list (any regions: empty, overlapping, ending at 2^64) and every
+    maps value the reader can produce: building `UnifiedMemoryInfoList`, `iter`, `by_addr` and
+    `memory_info_at_address` at any addresses reach no panic outcome (`into_rangemap_safe` never
+    fails: C08; `&self.regions[index]` is in bounds: every value of the table is a position of the
+    region vector) and allocate once (the table). -/
+theorem unified_total (info : Option (List MemInfo)) (maps : Option LinuxMapsX)
+    (hm : ∀ m, maps = some m → ∃ g s, (readLinuxMapsG g s).res = .ok m) :
+    (∀ site, (unifiedOut info maps).res ≠ .panic site) ∧ (unifiedOut info maps).allocs.length ≤ 1 := by
+  refine ⟨(unifiedOut_safe (B := (info.getD []).length * 32) info maps (fun is his => by subst his; simp) (fun m hmm => ?_)).1,
+    cnt_unifiedOut info maps⟩
+  obtain ⟨g, s, hgs⟩ := hm m hmm
+  have hx := readLinuxMapsG_ok hgs
+  exact ⟨(readLinuxMapsX_ok hx).1, readLinuxMapsX_hi hx⟩
+
+/-- **C01.14b** For every file and every module list read from it — whatever its CodeView records
+    hold: cut records, odd lengths, file names that are not UTF-8, zero / short / long build ids —
+    `debug_identifier`, `code_identifier`, `debug_file` (with `from_utf8_lossy`), `version` and
+    `print` of every module reach no panic outcome (`raw.signature.data4[i]` exists: a PDB 7.0
+    record that reads has its 11 GUID scalars), every allocation (lossy copy, hex strings of
+    `bytes_to_hex`) is at most `32 x len`, at most 4 per module. The strings themselves are C02's
+    derivations (`ids_as_documented`). -/
+theorem module_ids_total {ms : MemSizes} {b all : Bytes} {e : Endian} {mods : List Module} (os : Encode.Os)
+    (h : (readModuleList ms b all e).res = .ok mods) :
+    (∀ site, (modulesOut os e mods).res ≠ .panic site) ∧
+    (∀ a ∈ (modulesOut os e mods).allocs, a.n * a.sz ≤ K * all.size) ∧
+    (modulesOut os e mods).allocs.length ≤ 4 * mods.length ∧ mods.length * 108 ≤ b.size :=
+  ⟨(modulesOut_safe (B := K * all.size) os e (by unfold K; omega) mods (readModuleList_ok h)).1,
+   (modulesOut_safe (B := K * all.size) os e (by unfold K; omega) mods (readModuleList_ok h)).2,
+   cnt_modulesOut os e mods, readModuleList_length h⟩
+
+/-- a PDB file name that is not UTF-8 comes out with U+FFFD per maximal invalid prefix
+    (`String::from_utf8_lossy`): `ff`, a cut two-byte lead, an encoded surrogate, an overlong form -/
+example :
+    utf8Lossy [0x61, 0xff, 0x62] = [0x61, 0xFFFD, 0x62] ∧ utf8Lossy [0x63, 0xc3] = [0x63, 0xFFFD] ∧
+    utf8Lossy [0xed, 0xa0, 0x80] = [0xFFFD, 0xFFFD, 0xFFFD] ∧ utf8Lossy [0xc0, 0x80] = [0xFFFD, 0xFFFD] ∧
+    utf8Lossy [0xf0, 0x9f, 0x98, 0x41] = [0xFFFD, 0x41] ∧ utf8Lossy [0xf0, 0x9f, 0x98, 0x80] = [0x1F600] := by decide +kernel
+
+/-- `os_parts` on a Linux dump with version 0.0.0: version and build come out of the `uname` text -/
+example :
+    osParts 0 0 0 Gen.LayoutsC02.PLATFORM_Linux (some (scalarsOf "Linux 5.4.0-42-generic #46-Ubuntu SMP x86_64 Linux/GNU")) =
+      (scalarsOf "5.4.0-42-generic", some (scalarsOf "#46-Ubuntu SMP")) ∧
+    osParts 0 0 0 Gen.LayoutsC02.PLATFORM_Linux (some (scalarsOf "Linux")) = (scalarsOf "0.0.0", some (scalarsOf "Linux")) ∧
+    osParts 10 0 19041 2 (some (scalarsOf " SP1 ")) = (scalarsOf "10.0.19041", some (scalarsOf "SP1")) := by decide +kernel
+
+/-! ## 15. thread-context registers: C18's tables apply to contexts read from a dump -/
+
+/-- **C01.15 `context_registers_spec`** For every context `MinidumpContext::read` accepts — any bytes,
+    either byte order, all nine record types — and EVERY name the register tables of its type know
+    (`REGISTERS`, getter / setter arms, aliases, stack- and instruction-pointer names): the name's
+    storage cell exists in the record under the layout regenerated from format.rs, with the width the
+    tables state, inside the bytes read; `get_register_always(name)` and `get_register(name)` return
+    the little/big-endian word at that offset; and the enumerations are total:
+    `valid_registers()` lists exactly `general_purpose_registers()` in order, each with that word.
+    So the name / cell / alias / validity theorems of C18 hold for contexts coming out of a dump
+    (`regState c` is the register file they quantify over). -/
+theorem context_registers_spec {bytes : Bytes} {e : Endian} {arch : Nat} {c : Context}
+    (h : contextRead bytes e arch = .ok c) :
+    (∀ n ∈ Regs.knownNames (regsCtxOf c.kind), ∃ cell off w f,
+      Regs.getCell (regsCtxOf c.kind) n = some cell ∧
+      layoutOffset c.kind.layout (Regs.showCell cell) = some (off, w) ∧ off + w ≤ bytes.size ∧
+      Regs.fieldOf (regsCtxOf c.kind) cell.field = some f ∧ w * 8 = f.bits ∧
+      Regs.getAlways (regsCtxOf c.kind) (regState c) n = .ok (decodeNat e (bytes.extract off (off + w)).toList) ∧
+      Regs.getRegister (regsCtxOf c.kind) (regState c) n .all = .ok (some (decodeNat e (bytes.extract off (off + w)).toList))) ∧
+    (∃ vs, Regs.mdValidRegisters (regsCtxOf c.kind) (regState c) .all = .ok vs ∧
+      vs.map (·.1) = Gen.Regs.registers (regsCtxOf c.kind) ∧
+      ∀ p ∈ vs, Regs.getAlways (regsCtxOf c.kind) (regState c) p.1 = .ok p.2) ∧
+    (∀ site, (ctxRegisters c).res ≠ .panic site) ∧ (ctxRegisters c).allocs = [] := by
+  have ⟨_, _, hread, _, _, _⟩ := contextRead_ok h
+  refine ⟨fun n hn => ?_, ?_, (ctxRegisters_safe (B := 0) c).1, ctxRegisters_allocs c⟩
+  · obtain ⟨cell, hcell, hget⟩ := Regs.getAlways_known (regState c) hn
+    obtain ⟨off, w, f, hoff, hf, hw⟩ := cell_in_layout hn hcell
+    have ⟨hval, hfit⟩ := readFields_layoutOffset _ _ _ _ _ hread _ _ _ hoff
+    simp only [Nat.zero_add] at hval hfit
+    have hst : regState c cell = decodeNat e (bytes.extract off (off + w)).toList := by
+      simp only [regState, hval, Option.getD_some]
+    obtain ⟨_, cell', hcell', hreg⟩ := Regs.validity_all (regsCtxOf c.kind) (regState c) n hn
+    rw [hcell] at hcell'
+    cases hcell'
+    exact ⟨cell, off, w, f, hcell, hoff, hfit, hf, hw, by rw [hget, hst], by rw [hreg, hst]⟩
+  · exact (Regs.enumerations_valid (regsCtxOf c.kind) (regState c) [] (fun s hs => by cases hs)).2
+
+/-- an x86 record whose `eip` field (offset 184) holds 0x11223344: the named register is that word -/
+example :
+    (match contextRead ((((((Array.replicate 716 (0 : UInt8)).set! 2 1).set! 184 0x44).set! 185 0x33).set! 186 0x22).set! 187 0x11) .little 0 with
+     | .ok c => (match Regs.getRegister (regsCtxOf c.kind) (regState c) "eip" .all with
+        | .ok v => v
+        | .panic _ => none)
+     | .error _ => none) = some 0x11223344 ∧ layoutOffset CONTEXT_X86 "eip" = some (184, 4) := by decide +kernel
+
+/-! ## 16. the whole reader (`readWhole`): the panic frontier, allocations on every path -/
+
+/-- the panic outcome is reached -/
+theorem isPanic_def {α : Type} (m : M α) : IsPanic m ↔ ∃ site, m.res = .panic site := Iff.rfl
+
+theorem readFull_ok_base {ms : MemSizes} {b : Bytes} {f : Full} (h : (readFull ms b).res = .ok (.ok f)) :
+    (readAll ms b).res = .ok (.ok f.base) := by
+  unfold readFull at h
+  obtain ⟨r, hr, h⟩ := bind_ok h
+  split at h
+  · cases pure_ok h
+  · rename_i p
+    obtain ⟨x, _, h⟩ := bind_ok h
+    have := pure_ok h
+    cases this
+    exact hr
+
+/-- **C01.16a `whole_panics_iff`** For every byte string: opening it, requesting every stream,
+    every accessor and printer computation modelled (`readWhole`) reaches a panic outcome **iff** the
+    repository under test still hands Linux maps to procfs-core unguarded AND the file has a
+    Linux-maps stream whose text is `MapsHostile` — the known finding, and nothing else. -/
+theorem whole_panics_iff (ms : MemSizes) (hms : ms.Bounded) (b : Bytes) (hsz : SliceLen b.size) :
+    (∃ site, (readWhole ms b).res = .panic site) ↔
+      Gen.MapsGuard.MAPS_GUARDED = false ∧ ∃ d, readDump b = .ok d ∧ MapsStreamHostile b d := by
+  rw [← isPanic_def]
+  unfold readWhole readWholeWith
+  rw [isPanic_bind_safe (readFull_safe ms hms b hsz)]
+  constructor
+  · intro ⟨r, hr, hp⟩
+    split at hp
+    · exact absurd hp (isPanic_pure _)
+    · rename_i f
+      have ⟨hp2, hd⟩ := readAll_parsedOk2 (readFull_ok_base hr)
+      rw [isPanic_bind] at hp
+      cases hp with
+      | inl hp => have := (readMore_panic_iff b f hp2).mp hp; exact ⟨this.1, f.base.dump, hd, this.2⟩
+      | inr hp => obtain ⟨_, _, hp⟩ := hp; exact absurd hp (isPanic_pure _)
+  · intro ⟨hg, d, hd, hh⟩
+    obtain ⟨r, hr⟩ := full_total ms hms b hsz
+    refine ⟨r, hr, ?_⟩
+    cases r with
+    | error er =>
+      exfalso
+      unfold readFull at hr
+      obtain ⟨r', hr', hr⟩ := bind_ok hr
+      split at hr
+      · unfold readAll at hr'
+        rw [hd] at hr'
+        simp only at hr'
+        obtain ⟨_, _, hr'⟩ := bind_ok hr'
+        obtain ⟨_, _, hr'⟩ := bind_ok hr'
+        cases pure_ok hr'
+      · obtain ⟨_, _, hr⟩ := bind_ok hr
+        cases pure_ok hr
+    | ok f =>
+      have ⟨hp2, hd'⟩ := readAll_parsedOk2 (readFull_ok_base hr)
+      rw [hd] at hd'
+      cases hd'
+      simp only
+      rw [isPanic_bind]
+      exact .inl ((readMore_panic_iff b f hp2).mpr ⟨hg, hh⟩)
+
+/-- **C01.16b** and otherwise it yields a value (errors of the header or of single streams are values) -/
+theorem whole_total_of_not_hostile (ms : MemSizes) (hms : ms.Bounded) (b : Bytes) (hsz : SliceLen b.size)
+    (h : Gen.MapsGuard.MAPS_GUARDED = true ∨ ∀ d, readDump b = .ok d → ¬ MapsStreamHostile b d) :
+    ∃ r, (readWhole ms b).res = .ok r := by
+  cases hr : (readWhole ms b).res with
+  | ok r => exact ⟨r, rfl⟩
+  | panic s =>
+    exfalso
+    have ⟨hg, d, hd, hh⟩ := (whole_panics_iff ms hms b hsz).mp ⟨s, hr⟩
+    cases h with
+    | inl h => rw [hg] at h; cases h
+    | inr h => exact h d hd hh
+  | err er => exact absurd hr (readWholeWith_noErr false ms b er)
+
+/-- **C01.16c** every allocation `readWhole` logs is at most `K = 32` times the file length — on
+    every path, the panicking one included. -/
+theorem whole_alloc_backed (ms : MemSizes) (hms : ms.Bounded) (b : Bytes) (hsz : SliceLen b.size) :
+    ∀ a ∈ (readWhole ms b).allocs, a.n * a.sz ≤ K * b.size := by
+  unfold readWhole readWholeWith
+  refine allocsLe_bind (readFull_safe ms hms b hsz).2 (fun r hr => ?_)
+  split
+  · exact allocsLe_pure _
+  · rename_i f
+    have ⟨hp2, _⟩ := readAll_parsedOk2 (readFull_ok_base hr)
+    exact allocsLe_bind (readMore_allocsLe false b f hp2) (fun _ _ => allocsLe_pure _)
+
+/-- **C01.16d** the third group adds at most `5 x len + 11` allocations, so the sum of ALL requests
+    stays at most quadratic: the bound of `full_alloc_total_quadratic` plus `(5 len + 11) x 32 len`. -/
+theorem whole_alloc_total_quadratic (ms : MemSizes) (hms : ms.Bounded) (b : Bytes) (hsz : SliceLen b.size) :
+    totalBytes (readWhole ms b).allocs ≤
+      (21 + 10 * (b.size / 8)) * (K * b.size) + (11 * b.size + (b.size / 12) * (9 * b.size)) + 110 * (K * b.size)
+        + (5 * b.size + 11) * (K * b.size) := by
+  unfold readWhole readWholeWith
+  refine total_bind (full_alloc_total_quadratic ms hms b hsz) (fun r hr => ?_)
+  split
+  · rw [total_pure]; omega
+  · rename_i f
+    have ⟨hp2, _⟩ := readAll_parsedOk2 (readFull_ok_base hr)
+    have h1 : totalBytes (readMore false b f).allocs ≤ (5 * b.size + 11) * (K * b.size) :=
+      Nat.le_trans (totalBytes_le _ _ (readMore_allocsLe false b f hp2)) (Nat.mul_le_mul_right _ (cnt_readMore false b f hp2))
+    have := total_bind (C := 0) h1 (f := fun m => (pure (.ok ⟨f, m⟩) : M (Except Err Whole))) (fun _ _ => by rw [total_pure]; omega)
+    omega
+
+/-- **C01.16e** the driver renders a panicking input from the run in which the Linux-maps operation is
+    wrapped the way the harness wraps it (`catch_unwind`, `readWholeWith true`); on every input that
+    does not panic the two runs are the same value with the same allocation log. -/
+theorem whole_render_faithful (ms : MemSizes) (b : Bytes) (h : ¬ ∃ site, (readWhole ms b).res = .panic site) :
+    readWholeWith true ms b = readWhole ms b :=
+  readWholeWith_caught_eq ms b h
 
 end MdModel.Dump
